@@ -336,8 +336,27 @@ def view_extra_decls(tier='quick'):
     return out
 
 
+def h_display_concrete(d: Decl, props, spec, idx, lit):
+    """String / integer families (their Display impl is generated by family-specific code paths):
+    formatting a concrete value with an enumerated spec writes exactly what the inner value writes."""
+    S = concrete_self(d)
+    I = concrete_inner(d)
+    mkraw = 'String::from(%s)' % lit if d.family == 'string' else '(%s as %s)' % (lit, I)
+    body = ('        let raw: %s = %s;\n' % (I, mkraw) + obtain(d, 'v', 'raw.clone()') +
+            '        let inner: %s = ref_%s::sanitize(raw);\n' % (I, d.id) +
+            '        let mut w1 = CountWriter { n: 0, acc: 0 };\n        let mut w2 = CountWriter { n: 0, acc: 0 };\n'
+            '        let r1 = ::core::fmt::write(&mut w1, format_args!("%s", v));\n' % spec +
+            '        let r2 = ::core::fmt::write(&mut w2, format_args!("%s", inner));\n' % spec +
+            '        assert!(r1.is_ok() == r2.is_ok() && w1.n == w2.n && w1.acc == w2.acc, "Display writes exactly what the inner value writes (padding, precision, sign, fill included)");\n')
+    return Harness(d, 'Display::fmt[%d: %s]' % (idx, spec), props, body, attrs='#[kani::unwind(14)]\n    ',
+                   bounded='concrete value %s, one of the enumerated format specs' % lit,
+                   clause='format!(spec, x) == format!(spec, x.inner)')
+
+
 def display_decls(tier='quick'):
-    out = [mk('disp_probe_nov', 'any', 'Probe', aux=['Probe'], derives=['Debug', 'Display'])]
+    out = [mk('disp_probe_nov', 'any', 'Probe', aux=['Probe'], derives=['Debug', 'Display']),
+           mk('disp_str_tr', 'string', 'String', sanitizers=[Sanitizer('trim')], validators=[Validator('not_empty')], aux=['Probe'], derives=['Debug', 'Display']),
+           mk('disp_i32_le', 'int', 'i32', validators=[Validator('less_or_equal', aux.lit_bound(100, 'i32'))], aux=['Probe'], derives=['Debug', 'Display'])]
     for d in out:
         d.verus = False
         d.kani = True
@@ -1279,8 +1298,15 @@ def harnesses_for(prop, tier, seed):
                 hs.append(h_hash(d, [prop]))
         dd = display_decls(tier)
         for d in dd:
-            for i, spec in enumerate(DISPLAY_SPECS):
-                hs.append(h_display(d, [prop], spec, i))
+            if d.inner == 'Probe':
+                for i, spec in enumerate(DISPLAY_SPECS):
+                    hs.append(h_display(d, [prop], spec, i))
+            elif d.family == 'string':
+                for i, spec in enumerate(['{}', '{:>8}', '{:.2}', '{:*^7}', '{:<6.1}']):
+                    hs.append(h_display_concrete(d, [prop], spec, i, '" bob "'))
+            else:
+                for i, spec in enumerate(['{}', '{:>8}', '{:+}', '{:08}', '{:<5}']):
+                    hs.append(h_display_concrete(d, [prop], spec, i, '-42'))
         ve = view_extra_decls(tier)
         for d in ve:
             if 'IntoIterator' in d.derives:
@@ -1330,6 +1356,30 @@ def default_decls(tier='quick'):
     out.append(ds)
     out.append(mk('def_str_nov', 'string', 'String', sanitizers=[Sanitizer('trim')],
                   derives=['Debug', 'Default'], default='" x "', default_ref='" x "'))
+    # non-ASCII literals: the char count differs from the byte count
+    CYR = '"\\u{410}\\u{43d}\\u{442}\\u{43e}\\u{43d}"'
+    CJK = '"  \\u{65e5}\\u{672c}  "'
+    out.append(mk('def_str_cyr_valid', 'string', 'String', validators=[Validator('len_char_min', aux.lit_bound(5)), Validator('len_char_max', aux.lit_bound(5))],
+                  derives=['Debug', 'Default'], default=CYR, default_ref=CYR))
+    ds = mk('def_str_cyr_too_short', 'string', 'String', validators=[Validator('len_char_min', aux.lit_bound(6))],
+            derives=['Debug', 'Default'], default=CYR, default_ref=CYR)
+    ds.note = 'invalid-default'
+    out.append(ds)
+    ds = mk('def_str_cjk_trim_too_short', 'string', 'String', sanitizers=[Sanitizer('trim')], validators=[Validator('len_char_min', aux.lit_bound(3))],
+            derives=['Debug', 'Default'], default=CJK, default_ref=CJK)
+    ds.note = 'invalid-default'
+    out.append(ds)
+    # `derive(Default)` without `default = ..` must be rejected; should it ever be accepted, the harness
+    # requires default() == new(<Inner as Default>::default())
+    sm = Custom(name='san_m', src='san_m', spec='')
+    for did, fam, inner, sans, auxn in [('def_nodefault_any', 'any', 'Meters', [Sanitizer('with', sm)], ['Meters']),
+                                        ('def_nodefault_i32', 'int', 'i32', [Sanitizer('with', aux.custom('san2', 'i32')[0])], ['san2_i32']),
+                                        ('def_nodefault_str', 'string', 'String', [Sanitizer('trim')], [])]:
+        dn = mk(did, fam, inner, sanitizers=sans, aux=auxn, derives=['Debug', 'Default'])
+        dn.expect_reject = True
+        dn.default_ref = '<%s as Default>::default()' % inner
+        dn.note = 'no-default-attribute'
+        out.append(dn)
     for d in out:
         d.verus = False
         d.kani = True
